@@ -57,6 +57,7 @@ def _run_one(job):
     d = r.as_dict()
     d['label'] = '%s.%s[%s]' % (c.cls or '', meth, v.name)
     d['module'] = mname
+    d['cone'] = sorted(cone_props(c.cls, meth, v.name))
     return d
 
 
@@ -76,6 +77,7 @@ CONES = [
     (r'^SliceDataset\.(__iter__|__getitem__|__len__|keys|__init__)$', r'^(?!int:np)', {'C12', 'C13', 'C15', 'C18'}),
     # catch() evaluates its input by index (values) and by key (items): the plain integer lookups of every stage
     (r'\.__getitem__$', r'^int$', {'C14', 'C04'}),      # C04: the workers of a multi-worker prefetch evaluate frozen_copy[i]
+    (r'\.__getitem__$', r'^str', {'C14', 'C03'}),          # catch().items() looks every example up by key
     (r'\.copy$', r'', {'C04'}),
     (r'^(ParMapDataset|PrefetchDataset)\.__iter__$', r'', {'C13'}),
     (r'^ProfilingDataset\.__iter__$', r'', {'C01'}),
@@ -199,7 +201,9 @@ def load_known():
 
 def match_finding(findings, prop, obname):
     for f in findings:
-        if f.get('status') != 'open' or prop not in f.get('properties', []):
+        # a listed finding is identified by the failing obligation (call site + case split), whichever property's cone the
+        # obligation is checked under
+        if f.get('status') != 'open':
             continue
         for pat in f.get('obligations', []):
             if re.search(pat, obname):
@@ -298,8 +302,9 @@ def main():
             faults.append((r['label'], r['reason']))
             continue
         for o in r['obligations']:
-            if not clause_counts_for(o['name'], prop):
-                continue      # a clause of another property proved in the same symbolic run
+            if not clause_counts_for(o['name'], prop) and prop not in (r.get('cone') or ()):
+                continue      # a clause of another property proved in the same symbolic run (a variant that belongs to this
+                #               property's dependency cone counts with all its clauses)
             n_ob += 1
             solver_s += o['seconds']
             solver_max = max(solver_max, o['seconds'])
